@@ -92,7 +92,15 @@ func checkStep(c *run.Ctx, cl *scn.Cluster, t uint32, cands []scn.Cand, reopen b
 	// B*: survivors only
 	rPure, err2 := B.Mine(parent, t, scn.Txs(survivors), "")
 	c.Stat("executions", 1)
-	if err2 != nil || rPure.Block.Hash() != blk.Hash() {
+	if err2 != nil {
+		leak = true
+	} else if !sameTxList(rPure.Block, blk) {
+		// e.g. a box that ran into the block gas limit was rolled back but its gas stays subtracted from the block's
+		// gas pool, so later candidates were left out that fit when the box is never tried. Which candidates a miner
+		// packages is its policy; the statement speaks about the result for the same ordered list.
+		c.Stat("survivors_alone_packaged_differently", 1)
+		leak = false
+	} else if rPure.Block.Hash() != blk.Hash() {
 		leak = true
 	}
 	if leak && err2 == nil {
@@ -107,6 +115,12 @@ func checkStep(c *run.Ctx, cl *scn.Cluster, t uint32, cands []scn.Cand, reopen b
 			}
 			r3, err := B.Mine(parent, t, scn.Txs(lst), "")
 			c.Stat("executions", 1)
+			if err == nil && !sameTxList(r3.Block, rPure.Block) {
+				// alone with the survivors the candidate fits into the block (it was left out for the block gas limit,
+				// not discarded): another ordered tx list, nothing to compare
+				c.Stat("left_out_candidate_fits_alone", 1)
+				continue
+			}
 			if err != nil || r3.Block.Hash() != rPure.Block.Hash() {
 				found = true
 				viol(fmt.Sprintf("discarded-tx-leaves-trace:%s", mech(logDiff(rPure.Block, r3))),
